@@ -1156,6 +1156,45 @@ def r10(F, R):
 
 
 
+
+def r16(F, R):
+    R.rule("C14-R16", "a builder setter changes what it names and nothing else: every `fn(self, ..) -> Self` of a storage configuration type (CsvConfig, ZarrConfig, "
+                      "ZarrAsyncConfig, ..) returns `self` with fields overwritten from its own parameters, or a struct all of whose other fields are moved out of "
+                      "`self` - never one rebuilt from `Self::new(..)` / `Default::default()`, which silently resets what earlier setters configured (the order "
+                      "`.store_warmup(false).with_precision(p)` must mean the same as the reverse)")
+    n = 0
+    for b in sorted(F.bodies.values(), key=lambda x: x.path):
+        adt = b.parent.get("self_adt") or b.r.get("impl_self_adt") or ""
+        if b.kind == "closure" or b.parent.get("trait") or not adt.startswith("storage::") or not adt.split("::")[-1].endswith("Config"):
+            continue
+        if b.arg_count < 2 or strip_generics(str(b.local_ty(1))) != strip_generics(adt) or strip_generics(str(b.r.get("output") or "")) not in (strip_generics(adt), "Self"):
+            continue
+        n += 1
+        key = "%s:setter" % b.path
+        site = "%s @%s" % (b.path, b.loc())
+        bad = []
+        for bi, blk in enumerate(b.blocks):
+            if blk["cleanup"]:
+                continue
+            for st in blk["stmts"]:
+                if st["k"] != "assign" or st["rv"]["k"] != "agg" or st["rv"].get("ak") != "adt" or strip_generics(st["rv"].get("adt") or "") != strip_generics(adt):
+                    continue
+                for fn, op in zip(st["rv"].get("fields") or [], st["rv"].get("ops") or []):
+                    v = b.value(op)
+                    roots = [x for x in vt_walk(v) if x[0] == "arg"]
+                    calls = [x for x in vt_walk(v) if x[0] == "call"]
+                    from_self_or_param = bool(roots) and not any(c for c in calls if not [y for y in vt_walk(c) if y[0] == "arg" and y[1] >= 2] and
+                                                                   strip_generics(str(c[1])).split("::")[-1] in ("new", "default"))
+                    field_of_ctor = v[0] == "field" and v[1][0] == "call"
+                    if not from_self_or_param or field_of_ctor:
+                        bad.append((fn, vt_str(v)[:60]))
+        if bad:
+            R.bad("C14-R16", key, site, "%s rebuilds the configuration: field(s) %s do not come from `self` or the setter's parameter - what earlier setters "
+                  "configured (e.g. store_warmup) is reset" % (b.fn_name, ", ".join("%s = %s" % x for x in bad)))
+        else:
+            R.ok("C14-R16", key, site, "returns self with the named field set")
+    R.floor("C14-R16", 2)
+
 def run(F, R, config="all"):
     r1(F, R)
     r2(F, R)
@@ -1171,6 +1210,7 @@ def run(F, R, config="all"):
     r13(F, R)
     r14(F, R)
     r15(F, R)
+    r16(F, R)
     # a write whose failure is dropped leaves fill values where recorded draws should be, without an error: no unread Result in the backends
     from . import c13
     def _storage_only(sub):
@@ -1181,5 +1221,6 @@ def run(F, R, config="all"):
     # the event arrays are trimmed to the largest recorded count per phase: a lexicographic maximum of (warmup, sampling) pairs cuts recorded events off
     from . import c15
     if "zarr" in (([c for c in F.crates if c["name"] == "nuts_rs"] or [{}])[0].get("features") or []):
+        c15.r12(F, R, rid="C14-R17")
         K.borrow_rule(R, lambda sub: c15.r6(F, sub), "C14-R12", "event arrays keep every recorded event: per-dimension event counts of several chains are combined "
                       "component-wise, never by ordering (warmup, sampling) tuples (C15-R6 analysis)", only_rules={"C15-R6"})
